@@ -930,6 +930,10 @@ def render_unit(idx, tmpl_path, root, must_fail=False, params=None):
             linemap.append((first, len(out), table[-1]["item"]))
             i = j + 1
             continue
+        if s.startswith("//@convert_bodies"):
+            nconv, nskip = render_convert_headers(idx, table, linemap, out, defaults.get("props"), bodies=True, must_fail=must_fail)
+            i += 1
+            continue
         if s.startswith("//@convert_headers"):
             nconv, nskip = render_convert_headers(idx, table, linemap, out, defaults.get("props"))
             out.append("// %d conversion impl headers translated, %d outside this unit (floats, isize/usize)" % (nconv, nskip))
@@ -1099,7 +1103,16 @@ def _conv_type(t):
     return None
 
 
-def render_convert_headers(idx, table, linemap, out, props):
+_CONV_SHAPES = {
+    "src . to_num ( )": "to_num",
+    "let unshifted = Self :: from_bits ( src . into ( ) ) . to_bits ( ) ; let shift = FracDst :: U32 ; Self :: from_bits ( unshifted << shift )": "shift",
+    "let unshifted = Self :: from_bits ( src . to_bits ( ) . into ( ) ) . to_bits ( ) ; let shift = FracDst :: U32 - FracSrc :: U32 ; Self :: from_bits ( unshifted << shift )": "shift",
+    "Self :: from_bits ( src )": "from_bits",
+    "src . to_bits ( ) . into ( )": "to_bits_into",
+}
+
+
+def render_convert_headers(idx, table, linemap, out, props, bodies=False, must_fail=False):
     """One proof obligation per From / LossyFrom impl of `mod convert` between fixed-point types, integers and bool:
     the translated where-clause (R6) must imply that the conversion cannot overflow (and, for From, loses nothing)."""
     conv = [c for c in idx.root.children if c.kind == "mod" and c.name == "convert"]
@@ -1146,6 +1159,54 @@ def render_convert_headers(idx, table, linemap, out, props):
         table.append({"item": h, "sha256_orig": sha(idx.src(c.t0, c.t1)), "rules": ["R6"], "props": props,
                       "src_line": idx.line_of(c.t0), "n_requires": len(reqs), "n_ensures": 1, "notwin": True,
                       "body": body_norm[:160]})
+        if not bodies:
+            continue
+        # the body of the impl's single method, re-homed as a free function (R11) under the translated where-clause (R6)
+        fns = [f for f in c.children if f.kind == "fn"]
+        if len(fns) != 1 or src_t.strip() == "bool" or dst_t.strip() == "bool":
+            continue
+        f0 = fns[0]
+        btoks = idx.toks[f0.tb + 1:f0.t1]
+        shape = _CONV_SHAPES.get(" ".join(t.s for t in btoks))
+        if shape is None:
+            continue
+        rules = Rules()
+        body_txt = emit(rewrite_tokens(btoks, rules, {"frac_consts": True, "rename_int": True, "in_body": True}))
+        dst_txt = dst_t.strip()
+        body_txt = re.sub(r"\bSelf\s*::", "< " + dst_txt + " > ::", body_txt)
+        body_txt = re.sub(r"\bSelf\b", dst_txt, body_txt)
+        src_fixed = src_t.strip().startswith("Fixed")
+        dst_fixed = dst_txt.startswith("Fixed")
+        sb = "src.bits as int" if src_fixed else "src as int"
+        rb = "r.bits as int" if dst_fixed else "r as int"
+        dT = ("i" if sd else "u") + str(wd)
+        hints = ["%s::<%s>(%s);" % (name, ", ".join(x.split(":")[0].strip() for x in _split_top(gens)), sb) if gens else "%s(%s);" % (name, sb)]
+        hints = ["lemma_p2_consts();", "ax_prim_from();"] + bounds + hints
+        hints.append("assert((%s) * p2(0) == (%s)) by (nonlinear_arith) requires p2(0) == 1;" % (sb, sb))
+        if trait == "From":
+            hints.append("lemma_conv_exact(%s, %s, %s);" % (sb, fs, fd))
+        if shape == "shift":
+            hints.append("lemma_shl_%s((%s) as %s, ((%s) - (%s)) as u32);" % (dT, sb, dT, fd, fs))
+        fname = "convfn_%d" % n
+        item = "%s :: %s" % (h, f0.name)
+        first = len(out) + 1
+        out.append("// %s :: %s  (re-homed as a free function, R11; where-clause translated, R6)" % (h, f0.name))
+        out.append("pub fn %s%s(src: %s) -> (r: %s)" % (fname, gen_txt, src_t.strip(), dst_txt))
+        if reqs:
+            out.append("    requires " + ", ".join(reqs))
+        out.append("    ensures %s == R_conv(%s, %s, %s)" % (rb, sb, fs, fd))
+        out.append("{")
+        out.append("proof { %s }" % " ".join(hints))
+        out.append("// ---- verbatim body from expanded.rs:%d (sha256 %s) ----" % (idx.line_of(f0.tb), sha(idx.src(f0.tb, f0.t1))))
+        if must_fail:
+            out.extend(("let __twin_r = {\n" + body_txt + "\n};\nproof { assert(false); }\n__twin_r").split("\n"))
+        else:
+            out.extend(body_txt.split("\n"))
+        out.append("}")
+        linemap.append((first, len(out), item))
+        table.append({"item": item, "sha256_orig": sha(idx.src(f0.t0, f0.t1)), "sha256_rewritten": sha(body_txt),
+                      "rules": sorted(rules.fired | {"R6", "R11"}), "props": props, "src_line": idx.line_of(f0.t0),
+                      "n_requires": len(reqs), "n_ensures": 1, "fn_name": fname, "shape": shape})
     return n, skipped
 
 
